@@ -741,13 +741,13 @@ def run(ctx):
     loc = -12600          # TZ=VRF+03:30 is UTC-03:30
     run_packed(ctx)
     cases = []
-    nsc = ctx.n(2500, 60000)
+    nsc = ctx.n(8000, 200000)
     for i in range(nsc):
         r, e, tags = gen_scalar(rng)
         q = rng.random()
         op = "utc" if q < 0.55 else ("dt64_rt" if q < 0.70 else ("iso_rt" if q < 0.9 else ("to64" if q < 0.95 else "iso")))
         cases.append({"op": op, "r": r, "exp": e, "tags": tags})
-    for i in range(ctx.n(600, 15000)):
+    for i in range(ctx.n(2000, 40000)):
         r, e, tags = gen_seq(rng)
         q = rng.random()
         op = "utc" if q < 0.7 else "dt64_rt"
